@@ -265,6 +265,8 @@ def gen(rng, tier, index=0):
         plan['links'].append({'src': src['name'], 'dst': dst['name'], 'cfg': lcfg})
     # modelled clock-read latency: what one time.time()/datetime.now() call costs
     plan['read_cost_ns'] = rng.choice([1000] * 5 + [2000, 5000, 20_000, 60_000])
+    # granularity of the system clock (a reading may be EXACTLY equal to a boundary)
+    plan['clock_gran_us'] = rng.choice([1] * 17 + [1000, 10_000, 15_625])
     return plan
 
 
@@ -290,8 +292,9 @@ def execute(plan, trace=False):
     import random
     knobs = plan['knobs']
     read_cost_ns = int(plan.get('read_cost_ns', 1000))
+    gran_us = int(plan.get('clock_gran_us', 1))
     run = Run(knobs, wall_start_us=plan['start_wall_us'] - 0, tz_offset_s=plan['tz_s'],
-              max_steps=2_000_000, read_cost_ns=read_cost_ns)
+              max_steps=2_000_000, read_cost_ns=read_cost_ns, clock_gran_us=gran_us)
     try:
         loop = run.loop
         blocks = {}
@@ -336,6 +339,11 @@ def execute(plan, trace=False):
         if read_cost_ns > 1000:
             run.fired('fault:slow_clock_read')
         guard_before = 1000
+        if gran_us > 1:
+            # the code under test cannot tell instants inside one clock tick apart
+            run.fired('fault:coarse_clock')
+            guard_after += gran_us + 1000
+            guard_before += gran_us
         st = {
             'ready': False, 'terminated': False, 'counted': 0, 'skipped': 0,
             'blind_until_ns': 0,          # probes are not counted before this loop time
